@@ -133,9 +133,22 @@ class QvmEval(EvaluationContext):
         self.global_vars = global_vars
         self.find_routine_func = find_routine_func
 
-    def eval_lvalue(self, lvalue):
+    def current_routine(self):
         frame = self.cpu.cur_frame
-        routine = self.find_routine_func(frame.code_start)
+        if frame is None:
+            raise EvalError('No stack frame (program is not running)')
+        return self.find_routine_func(frame.code_start)
+
+    def get_node_routine(self, node):
+        # expressions typed at the debugger prompt are evaluated in the
+        # routine of the current stack frame, not in the main routine
+        try:
+            return self.current_routine()
+        except EvalError:
+            return self.main_routine
+
+    def eval_lvalue(self, lvalue):
+        routine = self.current_routine()
         if (lvalue.base_var in self.global_consts or lvalue.base_var in routine.local_consts) and \
            (lvalue.array_indices or lvalue.dotted_vars):
             raise ValueError(
@@ -156,6 +169,10 @@ class QvmEval(EvaluationContext):
             cell_value = segment.get_cell(base_idx)
 
         if not base_type.is_array and not base_type.is_user_defined:
+            if lvalue.array_indices or lvalue.dotted_vars:
+                raise EvalError(
+                    f'{lvalue.base_var} is neither an array nor a '
+                    f'record')
             if cell_value is None:
                 raise EvalError(
                     f'{lvalue.base_var} does not have a value yet')
@@ -205,10 +222,17 @@ class QvmEval(EvaluationContext):
             except KeyError:
                 pass
 
-        frame = self.cpu.cur_frame
-        if frame is None:
-            raise EvalError('No stack frame')
-        routine = self.find_routine_func(frame.code_start)
+        routine = self.current_routine()
+
+        if var in routine.static_vars:
+            # STATIC variables live in the global segment under a
+            # routine-qualified name
+            full_name = routine.get_variable(var).full_name
+            try:
+                return (self.cpu.globals_segment,
+                        get_global_var_idx(self, full_name))
+            except KeyError:
+                raise EvalError('Unknown variable')
 
         try:
             var_idx = get_local_var_idx(routine, var)
